@@ -25,6 +25,7 @@ class Profile:
         self.enums = True
         self.enum_same_name = False   # enum named like its own field set
         self.enum_reuse = False       # `as <name of an enum generated elsewhere>` on a later field (documented reuse)
+        self.case_twins = False       # pairs of names that differ only in letter case (`Rcq` declared before `RcQ`)
         self.conversions = True
         self.reset_values = True
         self.cfgs = False
@@ -51,13 +52,23 @@ class Gen:
         self.blocks = []
         self.enum_count = 0
         self.enum_pool = []   # generated enums so far: (name, base, declared width, kind)
+        self.twin_queue = []
         self.scope = 0        # id of the block body being generated (0 = root); refs without address override need it
         self.scopes = 0
         self.scope_of = {}    # object name -> scope it was declared in
         self.block_span = {}  # block name -> span of ONE instance of its contents (relative addresses 0..span)
 
     def name(self):
-        return self.names.pop() if self.names else None
+        # case twins: two legal, distinct names (methods rcq() / rc_q()) that differ only in the case of one letter; the
+        # lower-case one is issued first, so that a ref to the later `RcQ` must not end up at `Rcq` (seed C04-8 looked
+        # ref targets up ignoring case)
+        if self.twin_queue and self.rng.random() < 0.5:
+            return self.twin_queue.pop(0)
+        n = self.names.pop() if self.names else None
+        if n and self.p.case_twins and self.rng.random() < 0.12:
+            self.twin_queue.append(n + "Q")
+            return n + "q"
+        return n
 
     def addr(self, kind, span=1):
         a = self.next_addr[kind]
@@ -109,7 +120,17 @@ class Gen:
                         # an enum named like the field set it sits in (legal: field sets live in `mod field_sets`)
                         ename = owner + {"": "", "in": "FieldsIn", "out": "FieldsOut"}[tag]
                     kind = rng.random()
-                    if kind < 0.3:
+                    if kind < 0.1 and w >= 2:
+                        # a fallback variant that is NOT written last: it still takes the implicit number previous+1 and
+                        # the explicit numbers after it may or may not run into that one (seed C19-8 took fallback
+                        # variants out of the duplicate test; a collision is a rejected definition, not an E0081)
+                        first = rng.choice([0, 1])
+                        vs = [adef.mk_variant("Vz", rng.choice(["default", "catch_all"])), adef.mk_variant("Va", first),
+                              adef.mk_variant("Vb", first + 1)]
+                        if rng.random() < 0.5:
+                            vs = [adef.mk_variant("Vy", 0)] + vs[:1] + [adef.mk_variant("Va", first + 1), adef.mk_variant("Vb", first + 2)]
+                        tr, ek = False, "default"
+                    elif kind < 0.3:
                         vs = [adef.mk_variant("Va"), adef.mk_variant("Vb", "default")]
                         tr, ek = False, "default"
                     elif kind < 0.55:
